@@ -155,12 +155,12 @@ class TextRenderer(BaseRenderer):
             mid_index = len(bot_frame) // 2
             top_frame = (
                 (top_frame[:mid_index] + "┴" + top_frame[mid_index + 1 :])
-                if sorted_controls[-1] > sorted_targets[0]
+                if sorted_controls[-1] > sorted_targets[-1]
                 else top_frame
             )
             bot_frame = (
                 (bot_frame[:mid_index] + "┬" + bot_frame[mid_index + 1 :])
-                if sorted_controls[0] < sorted_targets[-1]
+                if sorted_controls[0] < sorted_targets[0]
                 else bot_frame
             )
 
@@ -327,8 +327,11 @@ class TextRenderer(BaseRenderer):
         mid_bar_conn = "─" * (width // 2) + "│" + "─" * (width // 2 - 1)
         node_conn = "─" * (width // 2) + "█" + "─" * (width // 2 - 1)
 
+        first_target, last_target = min(gate.targets), max(gate.targets)
+
         for wire in wire_list_control:
-            if wire not in gate.targets:
+            # the wires from the first to the last target belong to the gate box
+            if not first_target <= wire <= last_target:
                 if wire in gate.controls:
                     # check if the control wire is the first or last control wire.
                     # used in cases of multiple control wires
@@ -436,8 +439,8 @@ class TextRenderer(BaseRenderer):
                     sorted_controls = sorted(gate.controls)
 
                     # check if there is control wire above the gate top
-                    is_top = sorted_controls[-1] > sorted_targets[0]
-                    is_bot = sorted_controls[0] < sorted_targets[-1]
+                    is_top = sorted_controls[-1] > sorted_targets[-1]
+                    is_bot = sorted_controls[0] < sorted_targets[0]
 
                     if is_top:
                         self._update_qbridge(
